@@ -244,6 +244,25 @@ Proof.
 Qed.
 
 
+(** T1': the result of the trailing-mode loop is determined by [tstep]/[tstop] alone *)
+Theorem trailing_outcome : forall toks ls st,
+  l_trailing ls = true -> toutcome toks ls st (parse_loop c toks ls st).
+Proof. intros toks ls st H. rewrite (trailing_is_absorb toks ls st H). apply absorb_outcome. Qed.
+
+(** no token after the escape selects a subcommand or the help subcommand; an external
+    subcommand only when no positional is left for the token *)
+Theorem trailing_no_dispatch : forall toks ls st r,
+  l_trailing ls = true -> parse_loop c toks ls st = ROk r ->
+  (exists st', r = LDone st') \/
+  (exists pre tok rest st1, toks = pre ++ tok :: rest /\ r = LExternal tok rest st1 /\
+                            is_set s_allow_external c = true).
+Proof.
+  intros toks ls st r Htr E.
+  destruct (trailing_outcome toks ls st Htr) as [ls' st' _ Er|pre tok rest ls1 st1 Eq _ Hst].
+  - left. exists st'. rewrite E in Er. injection Er as ->. reflexivity.
+  - right. rewrite E in Hst. inversion Hst; subst. exists pre, tok, rest, st1. repeat split; assumption.
+Qed.
+
 (** * The iteration on [--] *)
 Definition dashdash : bytes := [DASH; DASH].
 
